@@ -346,6 +346,8 @@ type performer struct {
 	clFromHeader bool      // Response.ContentLength from the scripted Content-Length header (-1 when absent)
 	runaway      chan struct{} // closed when the case ends; a request with hundreds of deliveries is parked on it
 	hook   func(d *Delivery, b *Behaviour)
+	late   chan struct{} // non-nil: request bodies are read only after this channel is closed
+	lateWG sync.WaitGroup
 }
 
 func newPerformer(script []HostScript) *performer {
@@ -358,13 +360,35 @@ func newPerformer(script []HostScript) *performer {
 
 func (p *performer) Do(req *http.Request) (*http.Response, error) {
 	body := ""
-	if req.Body != nil {
+	p.mu.Lock()
+	late := p.late
+	p.mu.Unlock()
+	// a destination that answers before it has read the request body (a RoundTripper may go on reading the body
+	// after RoundTrip has returned): only for requests rrrouter buffers, i.e. not a POST it streams through
+	lateRead := late != nil && req.Body != nil && req.Method != "POST"
+	if req.Body != nil && !lateRead {
 		b, _ := ioutil.ReadAll(req.Body)
 		body = string(b)
 	}
 	p.mu.Lock()
 	d := Delivery{URL: req.URL.String(), Host: req.Host, Method: req.Method, Hdrs: req.Header.Clone(), Body: body}
 	p.log = append(p.log, d)
+	if lateRead {
+		idx := len(p.log) - 1
+		rb := req.Body
+		p.lateWG.Add(1)
+		go func() {
+			defer p.lateWG.Done()
+			<-late
+			b, _ := ioutil.ReadAll(rb)
+			rb.Close()
+			p.mu.Lock()
+			if idx < len(p.log) {
+				p.log[idx].Body = string(b)
+			}
+			p.mu.Unlock()
+		}()
+	}
 	if len(p.log) > 300 && p.runaway != nil {
 		// runaway request (unbounded internal recursion): park it instead of letting the stack grow
 		ch := p.runaway
